@@ -5,12 +5,30 @@ from .manifest_data import NOTE_COMMON
 CLAIM = {
   "technique": "Coq models of the whole encoder (validator, LRU, timestamp compression, marshalling, header/CRC) and the whole decoder (definitions, fields with the size "
                "fallbacks, developer fields, expansion) tied byte-exactly / message-exactly to the Go code by differential execution under vm_compute; value-level "
-               "round-trip theorems (induction), theorem for compressed timestamps over all message sequences (encoder rule vs decoder clock); direct Go round-trip oracle as search",
-  "text": "Partial proof. Proved: every numeric scalar/array field value written with its base type is read back unchanged (all lengths, both byte orders), strings per C06; "
-          "for every message sequence the decoder's clock reconstructs exactly the timestamps the encoder compressed into headers or wrote in full (C01_timestamps; holds since "
-          "fix: 0d6e112, the translated flag makes the obligation fail on a tree without it). The full sequence-level statement is kept in Props/C01.v as a comment. What is not yet a theorem (LRU/definition liveness, whole-message framing) "
-          "is decided per run: model-encode = Go bytes, model-decode(Go bytes) = Go decode, and Go decode(Go encode x) = validated x on structured inputs over all "
-          "encoder options and chained files.",
+               "round-trip theorems (induction), sequence-level round-trip theorem (induction over the message list with the invariant: LRU slot i holds the bytes of definition d <=> the decoder's table holds d at i; injectivity of definition marshalling for LRU hits), theorem for compressed timestamps over all message sequences (encoder rule vs decoder clock); direct Go round-trip oracle as search",
+  "text": "Proved on the models (tied to the Go code on every run): (1) sequence level, C01_sequence_roundtrip: for EVERY list of messages whose fields round-trip at the value "
+          "level (the decoder's own reading of the field's definition -- the profile's field, or an unknown field typed by the base type -- filled with what unmarshal makes of what "
+          "marshal wrote is the field itself; 1..255 bytes; numeric scalars, numeric arrays and clean strings of known fields, numeric scalars and arrays of unknown fields qualify: "
+          "C01_*_qualify), under every encoder option set with normal headers -- byte order, 1..16 local message types (every pattern of "
+          "LRU hits, free slots and evictions), header size 12/14, protocol version -- and every read-buffer size, decoding what encode_fit wrote yields exactly one sequence whose "
+          "messages are in order the validated input messages (number, fields, values): the definition a data record is decoded with is the one it was written with however often "
+          "the slot was reused, every field is cut out at the right offset, and the loop over the data size ends exactly after the last record (first stated for a decoder with checksum "
+          "verification and expansion off, see (7)). (2) value level: every numeric scalar/array value written with its base "
+          "type is read back unchanged (all lengths, both byte orders), strings per C06. (3) compressed timestamps: for every message sequence the decoder's clock reconstructs "
+          "exactly the timestamps the encoder compressed into headers or wrote in full (C01_timestamps; holds since fix: 0d6e112, the translated flag makes the obligation fail "
+          "on a tree without it). (4) C01_sequence_roundtrip_compressed: the same sequence-level statement under the compressed-timestamp header option (1..4 local message types), "
+          "for messages with at most one timestamp field: every decoded message has its fields as written or with the ORIGINAL timestamp field moved to the front -- the LRU/framing "
+          "induction joined with the clock invariant (encoder's last written timestamp = decoder's clock). Known string fields qualify as well (clean strings, C06). "
+          "(5) chained files (C01_chain_roundtrip, C01_chain_roundtrip_compressed): the output for a list of files is the concatenation of the single outputs and decoding it "
+          "yields one sequence per file, each related to its input as in (1)/(4), for any number of files (every sequence leaves the decoder in the state a fresh one starts in). "
+          "(6) developer fields (C01_chain_roundtrip_dev, normal headers, single or chained files): a developer field is typed by the first field description with its index and number "
+          "among the field_description messages of the sequence so far; for every list of messages whose developer fields round-trip under the description in force at their "
+          "position the decoded messages carry the same developer fields (number, developer data index, value) in order -- definitions with a developer part in the LRU and "
+          "the decoder's table, the description list growing with the decoded messages. "
+          "(7) C01_roundtrip, C01_roundtrip_compressed: (1)-(6) for EVERY decoder option set with component expansion off -- checksum verification on (the default) or off, any "
+          "read-buffer size: the header CRC written is the CRC of the header, every record byte is hashed while decoded and the running value meets the stored file CRC. "
+          "Not yet a theorem and decided per run: developer fields together with compressed-timestamp headers, string arrays inside whole messages, component expansion on: model-encode = Go bytes, model-decode(Go bytes) = Go decode, and Go decode(Go encode x) = validated x "
+          "on structured inputs over all encoder options and chained files.",
   "note": NOTE_COMMON + " gen/Factory.v and gen/Consts.v are dumped from the compiled packages. Primitive float/int63 operations appear under Print Assumptions "
           "(component scaling in the decoder model); custom factories are outside the model."}
 
